@@ -2,6 +2,7 @@ package checks
 
 import (
 	"fmt"
+	"math"
 	"strings"
 	"time"
 
@@ -42,11 +43,20 @@ func c17rejected() []struct {
 	}
 }
 
+var c17lits = []struct {
+	id string
+	v  any
+}{
+	{"int", 42}, {"float", 2.5}, {"inf", math.Inf(1)}, {"nan", math.NaN()}, {"true", true}, {"null", nil}, {"empty", ""}, {"string", "text"},
+	{"newline", "a\nb"}, {"newline-decl", "x\nfunc (c *Gontainer) Extra() int { return 1 }"}, {"cr", "a\rb"}, {"comment-end", "a */ b"}, {"comment-start", "// x"},
+	{"backtick", "a`b"}, {"nul", "a\x00b"}, {"unicode", "é😀"}, {"quote", `say "hi"`}, {"pct", "100%%"}, {"ref", "%pInt%\n%pStr%"}, {"fn", `%env("A", "d")%`},
+}
+
 func init() {
 	Register(&Check{
 		ID:    "C17",
 		Level: "exploration",
-		Rule: "pairs (normal, --stub) for every vector of C01's service factor space departing from the base in <= 2 factors (quick) / <= 3 (thorough), C13's getter truth table rows, and 10 rejected configurations of different classes: same verdict, build constraint, identical exported view (types.Identical signatures), stub type-checks against the types-only twin universe and references type names only; " +
+		Rule: "pairs (normal, --stub) for every vector of C01's service factor space departing from the base in <= 2 factors (quick) / <= 3 (thorough), C13's getter truth table rows, 20 literal kinds (incl. multi-line strings) x 5 positions, and 10 rejected configurations of different classes: same verdict, build constraint, identical exported view (types.Identical signatures), stub type-checks against the types-only twin universe and references type names only; " +
 			"all single departures compiled with -tags gontainerstub, constructor and every getter called (must panic), package excluded without the tag. non-trivial = accepted pair whose views were compared; distinct = distinct configuration",
 		Assumptions: []string{"the types-only twin universe declares the fixture types without any function or variable; a stub that needs more does not type-check against it"},
 		BudgetQuick: 240 * time.Second, BudgetThorough: 1200 * time.Second,
@@ -136,6 +146,32 @@ func init() {
 				w.Case("rejected/"+r.id, func(c *C) {
 					pair(c, "rejected/"+r.id, []File{{"c.yaml", r.cfg.YAML()}}, false, P(false))
 				})
+			}
+			// parameter / argument literals (incl. multi-line and control characters) in every position, both modes
+			for _, l := range c17lits {
+				for _, pos := range []string{"param", "ctor", "field", "call", "decorator"} {
+					l, pos := l, pos
+					id := fmt.Sprintf("lit/%s/%s", l.id, pos)
+					w.Case(id, func(c *C) {
+						cfg := &Cfg{Meta: stdMeta(), Params: []Param{{"pInt", 7}, {"pStr", "v"}}}
+						s := Service{Name: "sut", Constructor: P("pk.New"), Getter: P("GetSut")}
+						switch pos {
+						case "param":
+							cfg.Params = append(cfg.Params, Param{"pUnderTest", l.v})
+						case "ctor":
+							s.Args = []any{l.v}
+						case "field":
+							s.Fields = []KV{{"F1", l.v}}
+						case "call":
+							s.Calls = []Call{{Method: "Set1", Args: []any{l.v}}}
+						case "decorator":
+							s.Tags = []Tag{{Name: "tg"}}
+							cfg.Decorators = []Decorator{{Tag: "tg", Decorator: "pk.Dec1", Args: []any{l.v}}}
+						}
+						cfg.Services = append(cfg.Services, s)
+						pair(c, id, []File{{"c.yaml", cfg.YAML()}}, false, nil)
+					})
+				}
 			}
 			// getter truth table rows in both modes
 			for g := 0; g < 2; g++ {
